@@ -170,6 +170,10 @@ def check(ctx):
 
     # ------------------------------------------------------------------ positive controls
     import sys
+    # argument blocks and argument lists are read-only for every constructor (shared with C24)
+    from . import C24
+    C24.rule_readonly(ctx, R="C18.read-only")
+
     mod = sys.modules[__name__]
     control(ctx, mod, "drop the copy in _create",
             lambda s: variants.in_function(s, "sweetpea/_internal/cross_block.py", "MultiCrossBlockRepeat._create",
@@ -182,6 +186,7 @@ def check(ctx):
             "C18.callsite")
     ctx.min_instances("C18.callsite", 5)
     ctx.min_instances("C18.own", 1)
+    ctx.min_instances("C18.read-only", 7)
 
 
 def _owned_receiver(repo, f, recv, fam, blockfam):
